@@ -417,14 +417,17 @@ func checkC03(c c03Case) (*ev.Failure, c03Stats) {
 						ok = true
 					}
 				}
-				if !ok && len(held) > 0 && held[0].Num == lv.Number+1 {
-					ok = true // the block just before the client's first block
+				if !ok && len(held) > 0 && held[0].Num > lv.Number {
+					ok = true // a block below the client's first one: everything it holds goes (with contiguous heights and a junction right below, "the one before its first")
 				}
 				if !ok && len(held) == 0 {
 					ok = true
 				}
 				if !ok && P > 0 && lv.Number <= P {
 					ok = true // a block of the final prefix, which this client does not track
+				}
+				if !ok && lv.Number+1 < start {
+					ok = true // the junction lies below the requested range: everything the client holds goes
 				}
 				if !ok {
 					return ev.Failf("client/undo-designates-unknown-block", "%s: undo signal designates block %d/%s which the client does not hold (holds %v)", mode, lv.Number, lv.Id, nums(held)), st
@@ -557,12 +560,12 @@ func TestC03Forks(t *testing.T) {
 // TestC03ForksBackfill: the same fork histories on top of a final prefix that is back-filled by segment jobs.
 func TestC03ForksBackfill(t *testing.T) {
 	r := ev.Get("C03", "ForksBackfill")
-	r.Rule = "as Forks, but the fork history sits on top of 4..14 final blocks, modules start at block 1, segments of 2..4 blocks, the request starts inside or right after the final prefix and the recent final block is the top of the prefix: the stores the forks work on were built by segment jobs and handed over (or, in development mode, rebuilt from the boundary below the start); same oracles on the fork region; non-trivial = at least one segment job ran and the history undoes a block whose deltas include a delete or a size-changing update"
+	r.Rule = "as Forks, but the fork history sits on top of 4..14 final blocks, modules start at block 1, segments of 2..4 blocks, the request starts inside the final prefix, right after it or up to three blocks into the fork history (forks then happen below the output gate) and the recent final block is the top of the prefix: the stores the forks work on were built by segment jobs and handed over (or, in development mode, rebuilt from the boundary below the start); same oracles on the fork region; non-trivial = at least one segment job ran and the history undoes a block whose deltas include a delete or a size-changing update"
 	rapid.Check(t, func(rt *rapid.T) {
 		c := genC03(rt)
 		c.Seg = rapid.Uint64Range(2, 4).Draw(rt, "seg")
 		c.Prefix = rapid.Uint64Range(2*c.Seg, 3*c.Seg+2).Draw(rt, "prefix")
-		c.Start = rapid.Uint64Range(1, c.Prefix+1).Draw(rt, "start")
+		c.Start = rapid.Uint64Range(1, c.Prefix+4).Draw(rt, "start") // up to three blocks inside the fork history: forks below the output gate
 		if rapid.IntRange(0, 2).Draw(rt, "skips") == 0 {
 			c.SkipSeed = rapid.Uint64Range(1, 1<<30).Draw(rt, "skipseed")
 		}
